@@ -79,8 +79,8 @@ class SpatialTransformer(Module):
         self: TSpatialTransformer, *args, **kwargs
     ) -> Union[TSpatialTransformer, Tuple[tuple, dict]]:
         r"""Get or set data tensors and parameters on which transformation is conditioned."""
-        if args:
-            return shallow_copy(self).condition_(*args)
+        if args or kwargs:
+            return shallow_copy(self).condition_(*args, **kwargs)
         return self._transform.condition()
 
     def condition_(self: TSpatialTransformer, *args, **kwargs) -> TSpatialTransformer:
